@@ -895,13 +895,13 @@ def run(ctx):
                     nodes = rng.sample(range(n), rng.randint(1, n))
                 last_nodes[:] = [list(nodes)]
                 replay["steps"][-1].append(nodes)
-                nodes_arr = np.array(nodes)
+                nodes_arr = rng.choice([np.array(nodes), list(nodes), tuple(nodes), np.array(nodes, dtype=np.uint8)])
                 nsnap = Snapshot(nodes_arr)
                 h = obj.subgraph(nodes_arr)
                 if nsnap.changed():
                     fail("sub:mutated-input", "subgraph() modified its nodes argument: " + nsnap.changed())
                 held_parent = arrays_of(obj)
-                if any(share(a, b) for a in arrays_of(h) for b in held_parent + [nodes_arr]):
+                if any(share(a, b) for a in arrays_of(h) for b in held_parent + arrays_of(nodes_arr)):
                     fail("sub:alias-state", "subgraph(%s) shares memory with its parent graph or with the nodes argument" % nodes)
                 after_step([], "subgraph(%s)" % nodes)
                 k = len(nodes)
@@ -1143,7 +1143,7 @@ def run(ctx):
             else:
                 obj = MarkovChain(arg, lab) if rng.random() < 0.5 else MarkovChain(P=arg, state_values=lab)
         except Exception as e:       # a legal representation of a legal input must be accepted
-            unlisted(ctx, "form-rejected:%s:%s:%s" % (kind, form.split(":")[0], form.split(":")[1]),
+            ctx.spec_fail("form-rejected:%s:%s:%s" % (kind, form.split(":")[0], form.split(":")[1]),
                      "%s(%s) raised %s: %s" % ("DiGraph" if kind == "dg" else "MarkovChain", form, type(e).__name__, str(e)[:200]),
                      replay)
             return
@@ -1154,14 +1154,14 @@ def run(ctx):
             sane = (obj.n == n and len(cg.indptr) == n + 1 and cg.indptr[0] == 0 and all(np.diff(cg.indptr) >= 0)
                     and cg.indptr[-1] == len(cg.indices) == len(cg.data) and all(0 <= int(j) < n for j in cg.indices))
             if not sane:
-                unlisted(ctx, "dg-adjacency-misread:" + form.split(":")[1],
+                ctx.spec_fail("dg-adjacency-misread:" + form.split(":")[1],
                          "DiGraph(%s) built a graph with n=%s, indptr=%s instead of the %dx%d matrix" % (form, obj.n, cg.indptr.tolist(), n, n),
                          replay)
                 return
         try:
             rep = dg_report(obj, lab is not None) if kind == "dg" else mc_report(obj, lab is not None)
         except Exception as e:
-            unlisted(ctx, "form-read-failed:%s:%s:%s" % (kind, form.split(":")[0], form.split(":")[1]),
+            ctx.spec_fail("form-read-failed:%s:%s:%s" % (kind, form.split(":")[0], form.split(":")[1]),
                      "reading the properties of %s(%s) raised %s: %s" % (kind, form, type(e).__name__, str(e)[:200]), replay)
             return
         rep["labels"] = labels
@@ -1205,7 +1205,7 @@ def run(ctx):
             try:
                 h = obj.subgraph(narg)
             except Exception as e:
-                unlisted(ctx, "subgraph-nodes-form-rejected:" + ndname,
+                ctx.spec_fail("subgraph-nodes-form-rejected:" + ndname,
                          "subgraph(nodes as %s) raised %s: %s" % (ndname, type(e).__name__, str(e)[:200]), rp)
                 return
             if nsnap.changed():
